@@ -10,7 +10,7 @@ JOINOPS = {"<&>": "JJoin", "<->": "JCompose", "-&-": "JCommon", "---": "JExists"
            "-->": "JRightResidue", "<--": "JLeftResidue"}
 UNOPS = {"-": "UNeg", "count": "UCount", "^": "UPow", "!": "UNot"}
 
-IDENT_OK = __import__("re").compile(r"^[A-Za-z_][0-9A-Za-z_]*$|^@[A-Za-z_]*$|^\.$")
+IDENT_OK = __import__("re").compile(r"^[$@A-Za-z_][0-9$@A-Za-z_]*$")
 
 
 def qstr(s):
